@@ -63,6 +63,12 @@ open Pyoda Pyoda.Zone
 /-- the model's zone function for a total `g` -/
 def getT (g : Int → ZI) : Int → R ZI := fun t => .ok (g t)
 
+/-- `get` (a model zone function, possibly failing outside the instant range) agrees with the total `g`
+    on every valid instant -/
+def Agrees (get : Int → R ZI) (g : Int → ZI) : Prop := ∀ t, MINI ≤ t → t ≤ MAXI → get t = .ok (g t)
+
+theorem getT_agrees (g : Int → ZI) : Agrees (getT g) g := fun _ _ _ => rfl
+
 section
 variable {g : Int → ZI} (h : Spec g)
 include h
@@ -106,9 +112,15 @@ theorem next_facts {l : Int} (hl : Interior l) (he : (g l).e ≤ MAXI) :
     rw [← h1] at hN
     omega
 
+end
+
+section
+variable {g : Int → ZI} (h : Spec g) {get : Int → R ZI} (hget : Agrees get g)
+include h hget
+
 /-- `__get_earlier_matching_interval` on the model, characterised -/
 theorem earlier_eq {l : Int} (hl : Interior l) :
-    earlierMatching (getT g) (g l) l =
+    earlierMatching get (g l) l =
       .ok (if MINI < (g l).s ∧ (g ((g l).s - 1)).containsLocal l = true then some (g ((g l).s - 1)) else none) := by
   have hv := iv_valid_l h hl
   have hI := h.part l hv.1 hv.2
@@ -121,7 +133,7 @@ theorem earlier_eq {l : Int} (hl : Interior l) :
       · simp only [Interior] at hl; zconsts; omega
     have hu : untrusted ((g l).s - 1) = .ok ((g l).s - 1) :=
       untrusted_ok _ (by omega) (by omega)
-    simp only [hpre, if_true, hu, getT, bind, Except.bind, hs, true_and]
+    simp only [hpre, if_true, hu, hget _ (show MINI ≤ (g l).s - 1 by omega) (show (g l).s - 1 ≤ MAXI by omega), bind, Except.bind, hs, true_and]
     split <;> rfl
   · simp only [hpre, if_false]
     by_cases hs : MINI < (g l).s
@@ -139,7 +151,7 @@ theorem earlier_eq {l : Int} (hl : Interior l) :
 
 /-- `__get_later_matching_interval` on the model, characterised -/
 theorem later_eq {l : Int} (hl : Interior l) :
-    laterMatching (getT g) (g l) l =
+    laterMatching get (g l) l =
       .ok (if (g l).e ≤ MAXI ∧ (g (g l).e).containsLocal l = true then some (g (g l).e) else none) := by
   have hv := iv_valid_l h hl
   have hI := h.part l hv.1 hv.2
@@ -150,7 +162,7 @@ theorem later_eq {l : Int} (hl : Interior l) :
       rcases hE.2 with hb | hb
       · rw [hb] at hpre; simp only [Interior] at hl; zconsts; omega
       · omega
-    simp only [hpre, if_true, getT, bind, Except.bind, he, true_and]
+    simp only [hpre, if_true, hget _ (show MINI ≤ (g l).e by omega) he, bind, Except.bind, he, true_and]
     split <;> rfl
   · simp only [hpre, if_false]
     by_cases he : (g l).e ≤ MAXI
@@ -166,13 +178,13 @@ theorem later_eq {l : Int} (hl : Interior l) :
       simp [hc]
     · simp [he]
 
-omit h in
+omit h hget in
 theorem isValid_of (t : Int) (h1 : MINI ≤ t) (h2 : t ≤ MAXI) : isValid t = true := by
   simp only [isValid, Bool.and_eq_true, decide_eq_true_eq]; zconsts; omega
 
 /-- The complete case analysis of `map_local` on an interior local instant. -/
 theorem mapLocal_eq {l : Int} (hl : Interior l) :
-    mapLocal (getT g) l = .ok (
+    mapLocal get l = .ok (
       if (g l).containsLocal l = true then
         (if MINI < (g l).s ∧ (g ((g l).s - 1)).containsLocal l = true then ⟨2, g ((g l).s - 1), g l⟩
          else if (g l).e ≤ MAXI ∧ (g (g l).e).containsLocal l = true then ⟨2, g l, g (g l).e⟩
@@ -185,9 +197,9 @@ theorem mapLocal_eq {l : Int} (hl : Interior l) :
   have hv := iv_valid_l h hl
   have hI := h.part l hv.1 hv.2
   have hw := h.bounded l
-  have hg : getT g l = .ok (g l) := rfl
+  have hg : get l = .ok (g l) := hget l hv.1 hv.2
   unfold mapLocal
-  simp only [hg, bind, Except.bind, earlier_eq h hl, later_eq h hl]
+  simp only [hg, bind, Except.bind, earlier_eq h hget hl, later_eq h hget hl]
   by_cases c1 : (g l).containsLocal l = true
   · simp only [c1, if_true]
     by_cases c2 : MINI < (g l).s ∧ (g ((g l).s - 1)).containsLocal l = true
@@ -210,11 +222,12 @@ theorem mapLocal_eq {l : Int} (hl : Interior l) :
         simp only [intervalBeforeGap, intervalAfterGap, hg, bind, Except.bind, hu]
         by_cases c4 : l - (g l).wall * NPS < (g l).s
         · have hs1 : MINI ≤ (g l).s := by simp only [Interior] at hl; zconsts; omega
+          have hv1 : MINI ≤ (g l).s - 1 := by simp only [Interior] at hl; zconsts; omega
           simp only [c4, if_true, ZI.hasStart, isValid_of _ hs1 (by omega), Bool.not_true, Bool.false_eq_true, if_false,
-            untrusted_ok ((g l).s - 1) (by simp only [Interior] at hl; zconsts; omega) (by omega), getT]
+            untrusted_ok ((g l).s - 1) hv1 (by omega), hget _ hv1 (by omega)]
         · have he1 : (g l).e ≤ MAXI := by simp only [Interior] at hl; zconsts; omega
           have he0 : MINI ≤ (g l).e := by omega
-          simp only [c4, if_false, ZI.hasEnd, isValid_of _ he0 he1, Bool.not_true, Bool.false_eq_true, getT]
+          simp only [c4, if_false, ZI.hasEnd, isValid_of _ he0 he1, Bool.not_true, Bool.false_eq_true, hget _ he0 he1]
 
 end
 end Pyoda.C05
